@@ -11,6 +11,7 @@ import (
 	"sort"
 	"strings"
 	"sync"
+	"time"
 
 	"github.com/jrhy/s3db/kv"
 	"pgregory.net/rapid"
@@ -114,6 +115,8 @@ type MWCase struct {
 	// Cache: node_cache_entries of the writers' tables. Used with entries_per_node=4096 only
 	// (single-node trees): on multi-node trees the node cache and rollbacks run into K4.
 	Cache int `json:"cache,omitempty"`
+	// Frac: write times in quarters of a second (histories without vacuum only: cutoffs are seconds)
+	Frac bool `json:"frac,omitempty"`
 	// NoSteerK8: witness of known finding K8 only
 	NoSteerK8 bool `json:"no_steer_k8,omitempty"`
 }
@@ -157,6 +160,9 @@ func genMWCase(t *rapid.T, g mwGenCfg) MWCase {
 	single := g.cacheAndRollback && c.EPN == 4096
 	if single {
 		c.Cache = rapid.SampledFrom([]int{0, 3, 1000}).Draw(t, "cache")
+	}
+	if g.wVacuum == 0 && (g.mode == "" || g.mode == "c15") {
+		c.Frac = rapid.Bool().Draw(t, "frac")
 	}
 	withReturn := g.returnPattern > 0 && rapid.IntRange(0, g.returnPattern-1).Draw(t, "returnpattern") == 0
 	if withReturn {
@@ -391,6 +397,20 @@ func (r *mwRun) publish(w *mwWriter) error {
 	return nil
 }
 
+// setWriteTime: statement time T -> write_time. With Frac the unit of T is a quarter of a second
+// (wall-clock write times have a sub-second part; stored offsets then carry nanoseconds,
+// negative ones included); the order of the times, which is all the model uses, is the same.
+func (r *mwRun) setWriteTime(conn *Conn, t int64) error {
+	if !r.c.Frac {
+		return conn.SetWriteTime(baseTime + t)
+	}
+	q, rem := t/4, t%4
+	if rem < 0 {
+		q, rem = q-1, rem+4
+	}
+	return conn.Exec("update s3db_conn set write_time=?", time.Unix(baseTime+q, rem*250_000_000).UTC().Format("2006-01-02 15:04:05.000"))
+}
+
 // checkWriter compares a writer's visible rows with its model view.
 func (r *mwRun) checkWriter(wi int, where string) error {
 	w := r.ws[wi]
@@ -423,7 +443,7 @@ func (r *mwRun) execStmt(wi int, s Stmt, where string, isRetry, inTxn bool) erro
 		}
 		return nil
 	}
-	if err := w.conn.SetWriteTime(baseTime + s.T); err != nil {
+	if err := r.setWriteTime(w.conn, s.T); err != nil {
 		return fmt.Errorf("%s: set write_time: %v", where, err)
 	}
 	q, args := s.SQL(w.name, "k")
